@@ -84,12 +84,12 @@ CHECKS = {
   design="7/C18"),
  "C19": dict(
   technique="black-box hostile-input monitor on the real server binary with per-request CPU accounting (/proc/<pid>/stat) and interleaved reference-checked probe requests; liveness restated as bounded progress",
-  text="A seeded shuffle of hostile requests (broken JSON, every field x every JSON type, numbers beyond 64-bit limits, skew/period extremes, unknown/contradictory suites, oversized bodies, large echoed fields, every method x path, raw TCP fragments) is sent sequentially (server CPU time attributed per request: > 2 CPU-s is a violation) and on 32 connections; every response must be complete, 2xx only with the endpoint's success object; refused skews must not accept; probes judged by the C18 oracle (including large-response probes in flight with the hostile traffic) must stay correct; for ten request classes four equal batches are sent and the server's resident memory (/proc/<pid>/status) is read after each: steady growth per batch is a violation (something kept per request for good); a well-formed request left unanswered twice while GET / answers is a violation; text of n copies of a 1..4-byte character (n around 64, 86, 128, 256, 342, 512, 1024) is sent as path, query and in every string field; 27 request-header names with ~70 hostile values each are sent one at a time under CPU accounting (on API paths with a well-formed body whose 200 must be the library's answer); on a server of its own: twenty kinds of refused or failed first request each followed, if the connection stays open, by a well-formed request on the same connection (C18 oracle), 64..400 uploads announced and abandoned half-way, and clients that stall beyond the read timeout, each followed by probes; the documentation assets are requested concurrently under eight Accept-Encoding values (rounds meeting an expired compressed-file cache; freshly started servers asked by one client alone and by 40 clients with the same first request; concurrent byte ranges) and every body, decoded by the coding its own Content-Encoding names, must equal the bytes served for identity; thorough repeats those rounds on a -race build and reads its log (races whose accesses are the module's are violations, races inside dependencies are recorded); the process must stay alive. Unbounded 'eventually' is not decidable by a run; a timeout with an idle server is inconclusive.",
+  text="A seeded shuffle of hostile requests (broken JSON, every field x every JSON type, numbers beyond 64-bit limits, skew/period extremes, unknown/contradictory suites, oversized bodies, large echoed fields, every method x path, raw TCP fragments) is sent sequentially (server CPU time attributed per request: > 2 CPU-s is a violation) and on 32 connections; every response must be complete, 2xx only with the endpoint's success object; refused skews must not accept; probes judged by the C18 oracle (including large-response probes in flight with the hostile traffic) must stay correct; for ten request classes four equal batches are sent and the server's resident memory (/proc/<pid>/status) is read after each: steady growth per batch is a violation (something kept per request for good); a well-formed request left unanswered twice while GET / answers is a violation; text of n copies of a 1..4-byte character (n around 64, 86, 128, 256, 342, 512, 1024) is sent as path, query and in every string field; 27 request-header names with ~70 hostile values each are sent one at a time under CPU accounting (on API paths with a well-formed body whose 200 must be the library's answer); raw requests whose target or Host header a parser may fail on (a 2xx must be the success object of the path asked for); on a descriptor-limited server: waves of clients that never send a byte and a burst of more connections than descriptors, each followed by probes; a request with Expect: 100-continue on a connection idle for 11.5 s beside a control without the header; on a server of its own: twenty kinds of refused or failed first request each followed, if the connection stays open, by a well-formed request on the same connection (C18 oracle), 64..400 uploads announced and abandoned half-way, and clients that stall beyond the read timeout, each followed by probes; the documentation assets are requested concurrently under eight Accept-Encoding values (rounds meeting an expired compressed-file cache; freshly started servers asked by one client alone and by 40 clients with the same first request; concurrent byte ranges) and every body, decoded by the coding its own Content-Encoding names, must equal the bytes served for identity; thorough repeats those rounds on a -race build and reads its log (races whose accesses are the module's are violations, races inside dependencies are recorded); the process must stay alive. Unbounded 'eventually' is not decidable by a run; a timeout with an idle server is inconclusive.",
   note="Trusted: Linux /proc CPU accounting (100 Hz ticks), Go net/http client. Work is measured in CPU time, not latency, so machine load cannot raise an alarm.",
   design="7/C19"),
  "C20": dict(
   technique="black-box differential monitor on the freshly built wasm module under Node 20 (through globalThis and through the package's exported object, by name) + native overlay build of the binding's Go sources",
-  text="otp.wasm is built from the working tree into a scratch copy of otp-js and driven under Node with a generated case list over the property's common domain; answers through both access paths are compared per exported name with the native library and the reference model (codes, verdicts at every window distance and for hostile code strings, timestamps near the epoch with the native verdict as oracle, URLs); numbers with a fractional part on any numeric argument must give the integer part's answer or 'error:…'; malformed calls (every argument position x hostile JS values, too few/many arguments, range errors) must return 'error:…' and are followed by a known-answer probe; a thrown exception or missing result (Go runtime died) is a violation. Hostile values cover every JS type (BigInt, Symbol, function, Date, typed array, boxed primitives); the driver reloads the module after a death. The same Go sources are compiled natively through an overlay for a 10x larger differential, the package as committed (index.js + committed lib/otp.wasm) is driven with a reduced list against the same oracle, and so is a process in which the package's entry function is called repeatedly on one module instance (globals, newest and first returned object).",
+  text="otp.wasm is built from the working tree into a scratch copy of otp-js and driven under Node with a generated case list over the property's common domain; answers through both access paths are compared per exported name with the native library and the reference model (codes, verdicts at every window distance and for hostile code strings, timestamps near the epoch with the native verdict as oracle, URLs); numbers with a fractional part on any numeric argument must give the integer part's answer or 'error:…'; malformed calls (every argument position x hostile JS values, too few/many arguments, range errors) must return 'error:…' and are followed by a known-answer probe; a thrown exception or missing result (Go runtime died) is a violation. Hostile values cover every JS type (BigInt, Symbol, function, Date, typed array, boxed primitives); the driver reloads the module after a death. The same Go sources are compiled natively through an overlay for a 10x larger differential, the package as committed (index.js + committed lib/otp.wasm) is driven with a reduced list against the same oracle, and so is a process in which the package's entry function is called repeatedly on one module instance (globals, newest and first returned object; the history starts with calls that make the Go heap grow, and a watchdog tells a spinning node from a stalled one by its CPU time).",
   note="Trusted: Node 20 + wasm_exec.js of the toolchain, reference models.",
   design="7/C20"),
 }
